@@ -3,6 +3,13 @@ CONSTANTS
   MaxEvents = 3
   Shapes <- MC_ShapesQuick
   FullPermBins = 4
+  MaxCalls = 2
   Bug = "none"
 INVARIANT LayoutWellFormed
 INVARIANT ResultPerEvent
+INVARIANT MembershipPreserved
+INVARIANT OrderPreserved
+INVARIANT WeightsUntouched
+INVARIANT EdgesSameFunction
+INVARIANT InputUntouched
+INVARIANT Repeatable
